@@ -878,6 +878,12 @@ class Evaluator:
                "core::ops::bit::Shr::shr": "Shr"}
         if fn in OPS and len(args) == 2:
             return self.binop(OPS[fn], args[0], args[1], n["ty"])
+        if (res or fn).endswith("Try>::branch") or fn.endswith("Try::branch"):
+            v = args[0]
+            if isinstance(v, Agg) and v.var in ("Ok", "Some"):
+                return Agg("core::ops::control_flow::ControlFlow", "Continue", {"0": v.fields.get("0")})
+            if isinstance(v, Agg) and v.var in ("Err", "None"):
+                return Agg("core::ops::control_flow::ControlFlow", "Break", {"0": v})
         if fn.startswith("core::ops::bit::Not::not"):
             v = args[0]
             return cnot(self.as_cond(v)) if isinstance(v, Cond) else Sym("not(%s)" % vkey(v))
